@@ -10,7 +10,7 @@ use serde_json::{json, Value};
 pub static ENGINE: Engine = Engine {
     prop: "C09",
     level: "exploration",
-    rule: "every reference-free AST with <= N nodes over a binder-heavy alphabet (names a, b, c, X used free and bound; quantifier lists [], [a], [b], [a,b], [X], [c] where c occurs nowhere else; lfp/gfp on X and on a; not, & |, if, counting) printed as text and given to the real parser under the default order, under the reversed explicit order (ids 0.. in vector order) and — one size smaller — under the reversed order handed over as a vector listed in descending id order with gapped ids: free_vars == reference FV(AST) listed in variable order; vars == every name of the text exactly once in variable order; raw2free / to_free_index map exactly the free variables to their position; every variable tested by eval() is free. Plus and/or chains over 33 and 70 variables with binders around ids 31/32/n-1. distinct = distinct (formula text, ordering)",
+    rule: "every reference-free AST with <= N nodes over a binder-heavy alphabet (names a, b, c, X used free and bound; quantifier lists [], [a], [b], [a,b], [X], [c] where c occurs nowhere else; lfp/gfp on X and on a; not, & |, if, counting) printed as text and given to the real parser under the default order, under the reversed explicit order (ids 0.. in vector order) and — one size smaller — under the reversed order handed over as a vector listed in descending id order with gapped ids: free_vars == reference FV(AST) listed in variable order; vars == every name of the text exactly once in variable order; raw2free / to_free_index map exactly the free variables to their position; every variable tested by eval() is free. Through the binary: `rsbdd -r` on every AST <= 3 (4) nodes prints every name of the text once in variable order. Plus and/or chains over 33 and 70 variables with binders around ids 31/32/n-1. distinct = distinct (formula text, ordering)",
     assumptions: &["reference FV = names with an occurrence not enclosed by a quantifier or fixed-point binder of the same name (harness/src/refl.rs)", "AST size bound; evaluation only where the reference finds all fixed points convergent"],
     max_shards: 64,
     run,
@@ -125,6 +125,7 @@ fn check(ctx: &mut Ctx, a: &Ast, text: &str, rev: bool) {
 
 fn run(ctx: &mut Ctx) {
     let upto = if ctx.thorough() { 6 } else { 5 };
+    let cli_upto = if ctx.thorough() { 4 } else { 3 };
     let mut g = Gen::new(alpha());
     let mut idx = 0u64;
     wide(ctx, &mut idx);
@@ -145,6 +146,23 @@ fn run(ctx: &mut Ctx) {
                     SCRAMBLE.with(|s| s.set(false));
                 }
                 ctx.count("asts", 1);
+                // the binary's view of the full variable list: `-r` prints every name of the text
+                // once, in variable order (bound-only names included)
+                // (the binary evaluates the formula first: divergent fixed points are not inputs here)
+                if a.size() <= cli_upto && (!a.has_fp() || Sem::new(&a.names()).eval_closed(&a).is_some()) {
+                    let c = json!({"part": "cli-r", "text": text});
+                    ctx.begin_case(|| c.clone());
+                    ctx.count("evaluations", 1);
+                    ctx.count("cli_variable_lists", 1);
+                    let r = crate::cli::run_bin("rsbdd", &[format!("--evaluate={text}"), "-r".to_string()], None, &[]);
+                    let listed: Vec<String> = r.out().lines().map(|l| l.trim().to_string()).filter(|l| !l.is_empty()).collect();
+                    let want = a.names();
+                    if !r.ok() {
+                        ctx.violation(format!("{TAG} rsbdd -r: {text}"), format!("failed: {} {}", r.describe(), r.err_tail()), c);
+                    } else if listed != want {
+                        ctx.violation(format!("{TAG} rsbdd -r: {text}"), format!("-r printed {:?}, the names of the text in variable order are {:?}", listed, want), c);
+                    }
+                }
             }
         };
         g.stream(size, &mut |a| {
@@ -213,6 +231,16 @@ fn long_names(ctx: &mut Ctx, idx: &mut u64) {
 
 fn replay(ctx: &mut Ctx, c: &Value) {
     let text = c["text"].as_str().unwrap_or("");
+    if c["part"].as_str() == Some("cli-r") {
+        if let Ok(a) = refl::parse(text) {
+            let r = crate::cli::run_bin("rsbdd", &[format!("--evaluate={text}"), "-r".to_string()], None, &[]);
+            let listed: Vec<String> = r.out().lines().map(|l| l.trim().to_string()).filter(|l| !l.is_empty()).collect();
+            if !r.ok() || listed != a.names() {
+                ctx.violation(format!("{TAG} rsbdd -r: {text}"), format!("-r printed {:?} ({}), the names of the text in variable order are {:?}", listed, r.describe(), a.names()), c.clone());
+            }
+        }
+        return;
+    }
     if let Ok(a) = refl::parse(text) {
         SCRAMBLE.with(|s| s.set(c["vector_descending"].as_bool().unwrap_or(false)));
         check(ctx, &a, text, c["reversed_order"].as_bool().unwrap_or(false));
